@@ -123,7 +123,32 @@ class FX:
         """e (a node of this function) with locals expanded, one-line helpers inlined, module constants substituted"""
         at = self.flow.node_of_expr(e)
         new = self.ex.expand(e, at, stop=set(self.acc) | set(keep)) if at is not None else copy.deepcopy(e)
+        new = self._inline_nested(new)
         return resolve_consts(self.f.module, new, self.locals)
+
+    def _inline_nested(self, e: ast.AST, depth: int = 0) -> ast.AST:
+        """calls of one-expression functions defined inside this function (closures over its locals, e.g. a local
+        `cell(name)` accessor) are replaced by their value"""
+        prog, f = self.prog, self.f
+        nested = {q[len(f.qual) + 1:]: fn for q, fn in prog.funcs.items()
+                  if q.startswith(f.qual + '.') and fn.kind == 'nested' and '.' not in q[len(f.qual) + 1:]}
+        if not nested or depth > 3:
+            return e
+        outer = self
+
+        class T(ast.NodeTransformer):
+            def visit_Call(self, n):
+                self.generic_visit(n)
+                if isinstance(n.func, ast.Name) and n.func.id in nested and not n.keywords \
+                        and not any(isinstance(a, ast.Starred) for a in n.args):
+                    fn = nested[n.func.id]
+                    body = [st for st in fn.body if not (isinstance(st, ast.Expr) and isinstance(st.value, ast.Constant))]
+                    a = fn.node.args
+                    if len(body) == 1 and isinstance(body[0], ast.Return) and body[0].value is not None and not a.vararg \
+                            and not a.kwarg and not a.kwonlyargs and len(a.args) == len(n.args):
+                        return outer._inline_nested(subst(body[0].value, dict(zip(fn.params, n.args))), depth + 1)
+                return n
+        return T().visit(e)
 
     def conds(self, node: ast.AST, keep=()) -> List[Tuple[ast.AST, bool]]:
         """path condition (expanded atoms with polarity) of the statement containing node, plus the conditions inside
@@ -642,6 +667,104 @@ def generic_copies(ctx, func: Func) -> List[GenericCopy]:
                 out.append(GenericCopy(c, dst, owner, k.id, fx.conds(c, keep=keep), fo))
             break
     return out
+
+
+# --------------------------------------------------------------------------------------------------------- row helpers
+def bind_call(call: ast.Call, callee: Func) -> Optional[Dict[str, ast.AST]]:
+    """parameter name -> argument expression of a call to a package function (defaults filled); None if not simple"""
+    params = callee.params
+    if any(isinstance(a, ast.Starred) for a in call.args) or any(k.arg is None for k in call.keywords) or len(call.args) > len(params):
+        return None
+    out = dict(zip(params, call.args))
+    for k in call.keywords:
+        if k.arg not in params or k.arg in out:
+            return None
+        out[k.arg] = k.value
+    a = callee.node.args
+    defaults = dict(zip([x.arg for x in a.args][len(a.args) - len(a.defaults):], a.defaults)) if a.defaults else {}
+    for p_ in params:
+        if p_ not in out:
+            if p_ not in defaults:
+                return None
+            out[p_] = defaults[p_]
+    return out
+
+
+def package_helper(ctx, caller: Func, call: ast.AST) -> Optional[Func]:
+    """call is `helper(...)` of a module level package function"""
+    if not (isinstance(call, ast.Call) and isinstance(call.func, ast.Name)):
+        return None
+    tg = [t for t in ctx.typer.resolve_name_call(call.func.id, caller) if t.kind == 'function']
+    return tg[0] if len(tg) == 1 else None
+
+
+def loop_elt(fx: 'FX', stmts, acc: str, keep) -> Optional[ast.AST]:
+    """value appended to list `acc` by one pass over a loop body: `acc.append(E)` -> E; `if c: acc.append(A) else: acc.append(B)`
+    -> A if c else B (exactly one append on every path, local assignments are expanded); None otherwise"""
+    eff = [st for st in stmts if not isinstance(st, (ast.Assign, ast.AnnAssign, ast.Pass))
+           and not (isinstance(st, ast.Expr) and isinstance(st.value, ast.Constant))]
+    if len(eff) != 1:
+        return None
+    st = eff[0]
+    if isinstance(st, ast.Expr) and isinstance(st.value, ast.Call):
+        c = st.value
+        if isinstance(c.func, ast.Attribute) and c.func.attr == 'append' and isinstance(c.func.value, ast.Name) \
+                and c.func.value.id == acc and len(c.args) == 1 and not c.keywords:
+            return fx.x(c.args[0], keep=keep)
+        return None
+    if isinstance(st, ast.If):
+        def empty(block):
+            return not [x for x in block if not isinstance(x, ast.Pass) and not (isinstance(x, ast.Expr) and isinstance(x.value, ast.Constant))]
+        a, b = loop_elt(fx, st.body, acc, keep), loop_elt(fx, st.orelse, acc, keep)
+        if a is not None and b is not None and not isinstance(a, tuple) and not isinstance(b, tuple):
+            return ast.IfExp(test=fx.x(st.test, keep=keep), body=a, orelse=b)
+        # one branch appends, the other appends nothing: a filtered comprehension  ->  (elt, filter)
+        if a is not None and not isinstance(a, tuple) and empty(st.orelse):
+            return a, fx.x(st.test, keep=keep)
+        if b is not None and not isinstance(b, tuple) and empty(st.body):
+            return b, ast.UnaryOp(op=ast.Not(), operand=fx.x(st.test, keep=keep))
+    return None
+
+
+def built_list(fx: 'FX', name: str, at_expr: ast.AST, keep) -> Optional[Tuple[ast.AST, Optional[ast.AST]]]:
+    """list variable `name` = literal list, then extended by ONE of: a `for k in IT: name.append(..)` loop, `name += X`,
+    `name.extend(X)`  ->  (expanded literal, expanded extension as an expression or None)"""
+    defs = [d for d in fx.flow.defs_of(name)]
+    lit = [d for d in defs if d.kind == 'assign' and isinstance(d.value, (ast.List, ast.Tuple))]
+    aug = [d for d in defs if d.kind == 'aug']
+    if len(lit) != 1 or len(defs) != len(lit) + len(aug) or len(aug) > 1:
+        return None
+    fixed = ast.List(elts=[fx.x(e, keep=keep) for e in lit[0].value.elts], ctx=ast.Load())
+    muts = [n for n in walk_no_nested(fx.f.node) if isinstance(n, ast.Call) and isinstance(n.func, ast.Attribute)
+            and isinstance(n.func.value, ast.Name) and n.func.value.id == name]
+    ext = None
+    if aug:
+        if muts or not isinstance(aug[0].stmt.op, ast.Add):
+            return None
+        ext = fx.x(aug[0].stmt.value, keep=keep)
+    elif muts:
+        if all(m.func.attr == 'append' for m in muts):
+            loops = {id(l): l for m in muts for l in fx.enclosing_fors(m)[-1:]}
+            if len(loops) != 1 or any(len(fx.enclosing_fors(m)) != 1 for m in muts):
+                return None
+            lp = list(loops.values())[0]
+            if lp.orelse or any(isinstance(n, (ast.Break, ast.Continue, ast.Return, ast.For, ast.While)) for st in lp.body for n in ast.walk(st)):
+                return None
+            k2 = list(keep) + [n.id for n in ast.walk(lp.target) if isinstance(n, ast.Name)]
+            elt = loop_elt(fx, lp.body, name, k2)
+            if elt is None:
+                return None
+            ifs = []
+            if isinstance(elt, tuple):
+                elt, flt = elt
+                ifs = [flt]
+            ext = ast.ListComp(elt=elt, generators=[ast.comprehension(target=copy.deepcopy(lp.target), iter=fx.x(lp.iter, keep=keep),
+                                                                        ifs=ifs, is_async=0)])
+        elif len(muts) == 1 and muts[0].func.attr == 'extend' and len(muts[0].args) == 1:
+            ext = fx.x(muts[0].args[0], keep=keep)
+        else:
+            return None
+    return fixed, (ast.fix_missing_locations(ext) if ext is not None else None)
 
 
 # --------------------------------------------------------------------------------------------------------- misc
